@@ -130,8 +130,12 @@ class Fn:
         self.ret_hook = None
         self.repo = None
         self.loop_exit = []
+        self.loop_cont = []
         self.uses_fuel = False
         self.deps_used = set()
+        self.exts_used = []
+        self.str_arrays = set()
+        self.fuelled = 0
 
     # ---------------------------------------------------------------- expressions
     def lval_name(self, n):
@@ -175,6 +179,10 @@ class Fn:
                 if cval(e) is None and ity in WIDTH and ty in WIDTH and not WIDTH[ity][1] and WIDTH[ity][0] <= WIDTH[ty][0]:
                     return e          # widening of an unsigned value never changes it
                 return wrap(e, ty)
+            if ck == "NullToPointer":
+                return "0"
+            if ck in ("BitCast",):
+                return self.E(inner)
             if ck == "IntegralToBoolean":
                 c = self.C(inner)
                 return {"true": "1", "false": "0"}.get(c, "(if %s then 1 else 0)" % c)
@@ -259,6 +267,17 @@ class Fn:
             if op == ">>":
                 return "(Z.shiftr %s %s)" % (ea, eb)
             raise Unsupported("binary " + op)
+        if k == "UnaryExprOrTypeTraitExpr" and n.get("name") == "sizeof":
+            tinfo = (n.get("argType") or (n["inner"][0].get("type") if n.get("inner") else {}) or {})
+            t = tinfo.get("desugaredQualType") or tinfo.get("qualType", "")
+            m = re.search(r"\[(\d+)\]$", t.strip())
+            cnt = int(m.group(1)) if m else 1
+            el = t[:m.start()].strip() if m else t.strip()
+            if el.endswith("*"):
+                return lit(8 * cnt)
+            if el.replace("const ", "") in WIDTH:
+                return lit(WIDTH[el.replace("const ", "")][0] // 8 * cnt)
+            raise Unsupported("sizeof " + t)
         if k == "ConditionalOperator":
             c, a, b = n["inner"]
             cc = self.C(c)
@@ -272,6 +291,8 @@ class Fn:
             name = self.lval_name(arr)
             ie = self.E(idx)
             iv = cval(ie)
+            if name == "languages":
+                return ie            # a registered language is denoted by its position in the registry
             if name in self.ptrs:
                 if iv is None:
                     raise Unsupported("pointer %s indexed by data" % name)
@@ -280,7 +301,7 @@ class Fn:
             if name in self.char_ptrs:
                 return "(rdc sgn (skipn %s %s))" % (pos, name)
             self.note_len(name, arr)
-            if iv is not None and iv >= 0:
+            if iv is not None and iv >= 0 and not (self.fuelled and not self.elems.get(name)):
                 # scalar replacement: an element written at a constant index lives in its own variable
                 el = "%s_%d" % (name, iv)
                 if el in self.consts:
@@ -312,6 +333,18 @@ class Fn:
                 if not eqs:
                     return "0"
                 return "(if %s then 0 else 1)" % " && ".join(eqs)
+            if f in EXTERNS:
+                gname, sel, gty = EXTERNS[f]
+                if gname is None:
+                    return "0"
+                if (gname, gty) not in self.exts_used:
+                    self.exts_used.append((gname, gty))
+                args = []
+                for j in sel:
+                    a = n["inner"][1 + j]
+                    cp = self.char_ptr_expr(a)
+                    args.append(cp if cp is not None else self.E(a))
+                return "(%s %s)" % (gname, " ".join(args))
             if f not in self.known:
                 raise Unsupported("call of " + f)
             args = [self.E(a) for a in n["inner"][1:]]
@@ -395,6 +428,16 @@ class Fn:
         k = n["kind"]
         if k == "ParenExpr":
             return self.lval_base(n["inner"][0])
+        if k == "UnaryOperator" and n.get("opcode") == "*":
+            inner = n["inner"][0]
+            while inner.get("kind") in ("ImplicitCastExpr", "ParenExpr"):
+                inner = inner["inner"][0]
+            if inner.get("kind") == "DeclRefExpr":
+                nm = inner["referencedDecl"]["name"]
+                if nm in self.ptrs:
+                    return "%s_%d" % self.ptrs[nm]
+                return nm + "_0"
+            raise Unsupported("store through a computed pointer")
         if k == "ArraySubscriptExpr":
             return self.lval_name(n["inner"][0])
         return self.lval_name(n)
@@ -428,9 +471,11 @@ class Fn:
                 self.elems.setdefault(base, set()).add(off)
                 return "%s_%d" % (base, off), None
             self.note_len(name, arr)
-            if iv is not None and iv >= 0 and name not in self.char_ptrs:
+            if iv is not None and iv >= 0 and name not in self.char_ptrs and not self.fuelled:
                 self.elems.setdefault(name, set()).add(iv)
                 return "%s_%d" % (name, iv), None
+            if self.fuelled and not self.elems.get(name) and name not in self.char_ptrs:
+                return name, ie      # inside a fuelled loop arrays stay lists (the state carries them whole)
             if self.elems.get(name):
                 raise Unsupported("array %s is indexed by data after constant-index writes" % name)
             return name, ie
@@ -444,6 +489,16 @@ class Fn:
         if k == "DeclRefExpr":
             nm = a["referencedDecl"]["name"]
             return nm if nm in self.char_ptrs else None
+        if k == "ArraySubscriptExpr":
+            try:
+                nm = self.lval_name(a["inner"][0])
+            except Unsupported:
+                return None
+            if nm in self.str_arrays:
+                ie = self.E(a["inner"][1])
+                v = cval(ie)
+                return "(nth %s %s [])" % ("%d%%nat" % v if v is not None and v >= 0 else "(Z.to_nat %s)" % ie, nm)
+            return None
         if k == "BinaryOperator" and a["opcode"] == "+":
             base = self.char_ptr_expr(a["inner"][0])
             if base is None:
@@ -577,6 +632,16 @@ class Fn:
                     raise Unsupported("decl " + v["kind"])
                 ty = ctype(v)
                 init = [c for c in v.get("inner", []) if c.get("kind") not in ("FullComment",)]
+                if "polyseed_cmp" in ty or "polyseed_cmp" in v.get("type", {}).get("qualType", ""):
+                    continue            # the comparer is a function of the language: not carried
+                if "polyseed_lang" in v.get("type", {}).get("qualType", "") and ty.endswith("*"):
+                    out += self.assign((v["name"], None), self.E(init[0]))
+                    continue
+                m_arr = re.search(r"\[(\d+)\]$", v.get("type", {}).get("qualType", "").strip())
+                if m_arr and not init:
+                    self.arr_len[v["name"]] = int(m_arr.group(1))
+                    out += "let %s : list Z := repeat 0 %d in\n" % (v["name"], int(m_arr.group(1)))
+                    continue
                 if ty.endswith("*") and not ty.endswith("char *"):
                     self.ptrs[v["name"]] = self.pointee(init[0])
                     continue
@@ -663,7 +728,8 @@ class Fn:
             if c == "false":
                 return self.S(([els] if els is not None else []) + rest, k)
             if self.has_return(then) or (els is not None and self.has_return(els)) or \
-                    self.has_break(then) or (els is not None and self.has_break(els)):
+                    self.has_break(then) or (els is not None and self.has_break(els)) or \
+                    self.has_continue(then) or (els is not None and self.has_continue(els)):
                 saved = dict(self.consts)
                 t = self.S([then] + rest, k)
                 self.consts = dict(saved)
@@ -689,14 +755,16 @@ class Fn:
                 raise Unsupported("break outside a translated loop")
             return self.loop_exit[-1](True)
         if kind == "ContinueStmt":
-            raise Unsupported("continue")
+            if not self.loop_cont:
+                raise Unsupported("continue outside a translated loop")
+            return self.loop_cont[-1]()
         if kind in ("ForStmt", "WhileStmt"):
             if kind == "ForStmt":
                 init, _cv, cond, inc, body = n["inner"]
             else:
                 init, cond, inc, body = None, n["inner"][0], None, n["inner"][1]
             loopbody = [body] + ([inc] if inc is not None and inc.get("kind") else [])
-            if self.has_break(body) or self.has_return(body):
+            if self.has_break(body) or self.has_return(body) or self.has_continue(body):
                 return (self.S([init], lambda: self.break_loop(cond, body, inc, rest, k))
                         if init is not None and init.get("kind") else self.break_loop(cond, body, inc, rest, k))
 
@@ -730,6 +798,11 @@ class Fn:
                 return self.S([init], lambda: iterate(0))
             return iterate(0)
         if kind == "CallExpr":
+            callee0 = n["inner"][0]
+            while callee0.get("kind") in ("ImplicitCastExpr", "ParenExpr"):
+                callee0 = callee0["inner"][0]
+            if callee0.get("kind") == "MemberExpr" and callee0.get("name") == "memzero":
+                return self.S(rest, k)      # wiping is an effect (traces), not part of the value computed
             f = self.lval_name(n["inner"][0])
             if f in ("assert", "__assert_fail"):
                 return self.S(rest, k)
@@ -759,6 +832,8 @@ class Fn:
             if call is not None:
                 return self.inline(call, lambda val: self.S(rest, k))
             raise Unsupported("call statement " + f)
+        if kind == "CallExpr_deps_memzero":
+            return self.S(rest, k)
         if kind == "ParenExpr" and n["inner"][0].get("kind") == "ConditionalOperator":
             n = n["inner"][0]
             kind = "ConditionalOperator"
@@ -837,6 +912,13 @@ class Fn:
             raise Unsupported("source of the transform is not a string")
         return callee["name"], src, dst
 
+    def has_continue(self, n):
+        if n.get("kind") == "ContinueStmt":
+            return True
+        if n.get("kind") in ("ForStmt", "WhileStmt", "DoStmt"):
+            return False
+        return any(isinstance(c, dict) and self.has_continue(c) for c in n.get("inner", []))
+
     def has_break(self, n):
         """a break that belongs to this loop (not to a nested one)"""
         if n.get("kind") == "BreakStmt":
@@ -855,6 +937,16 @@ class Fn:
             self.assigned(inc, m)
         m -= self.declared(body, set())
         m = sorted(m)
+        pre = ""
+        for x in m:
+            if self.elems.get(x):
+                pre += "let %s : list Z := %s in\n" % (x, self.array_value(x))
+                for i in list(self.elems[x]):
+                    self.consts.pop("%s_%d" % (x, i), None)
+                self.elems[x] = set()
+        if pre:
+            return pre + self.break_loop(cond, body, inc, rest, k)
+        self.fuelled += 1
         init_vals = self.vals(m)
         for x in m:
             self.consts.pop(x, None)
@@ -874,9 +966,12 @@ class Fn:
         if with_ret:
             self.ret_hook = lambda e: exit_(True, e if e is not None else "0")
         inc_stmts = [inc] if inc is not None and inc.get("kind") else []
+        self.loop_cont.append(lambda: self.S(inc_stmts, lambda: exit_(False)))
         b = self.S([body] + inc_stmts, lambda: exit_(False))
+        self.loop_cont.pop()
         self.ret_hook = saved_hook
         self.loop_exit.pop()
+        self.fuelled -= 1
         self.consts = saved
         for x in m:
             self.consts.pop(x, None)
@@ -917,6 +1012,8 @@ class Fn:
         for p in self.node["inner"]:
             if p.get("kind") == "ParmVarDecl" and ctype(p).endswith("char *"):
                 self.char_ptrs.add(p["name"])
+            if p.get("kind") == "ParmVarDecl" and re.match(r"(const )?char \*(const )?\s*\*", p.get("type", {}).get("qualType", "")):
+                self.str_arrays.add(p["name"])
         # first pass to learn whether a loop needed the option monad
         self.uses_option_final = False
         self.uses_option = False
@@ -941,6 +1038,8 @@ class Fn:
             extra.append(("sgn", "bool"))
         for dn in sorted(self.deps_used):
             extra.append(("dep_" + dn, "list Z -> list Z * Z"))
+        for (gname, gty) in self.exts_used:
+            extra.append((gname, gty))
         self.extra_params = [p[0] for p in extra]
         return "Definition %s %s : %s :=\n%s." % (self.name, " ".join("(%s : %s)" % p for p in extra + params), rty, text)
 
@@ -948,8 +1047,11 @@ class Fn:
 UNROLL = 512
 FUEL = 64
 INLINE = {"store16": "storage.c", "load16": "storage.c"}
+# functions left outside the translation: (Gallina parameter, which C arguments it takes, its type)
+EXTERNS = {"lang_search": ("ext_lang_search", [0, 1], "Z -> list Z -> Z"), "get_comparer": (None, [], None)}
 # lengths of array objects passed as decayed pointers (from the typedefs of the public header)
-ARRAY_LEN = {"polyseed_data_store": {"storage": 32}, "polyseed_data_load": {"storage": 32}}
+ARRAY_LEN = {"polyseed_data_store": {"storage": 32}, "polyseed_data_load": {"storage": 32},
+             "polyseed_phrase_decode": {"idx_out": 16}, "polyseed_phrase_decode_explicit": {"idx_out": 16}}
 ENUMS = {}
 
 
@@ -1008,6 +1110,11 @@ TARGETS = [
     ("lang.c", "compare_prefix", [("key", "list Z"), ("elm", "list Z"), ("n", "Z")], [], [], "Z"),
     ("lang.c", "compare_str_noaccent", [("key", "list Z"), ("elm", "list Z")], [], [], "Z"),
     ("lang.c", "compare_prefix_noaccent", [("key", "list Z"), ("elm", "list Z"), ("n", "Z")], [], [], "Z"),
+    ("lang.c", "polyseed_phrase_decode",
+     [("phrase", "list (list Z)"), ("idx_out", "list Z"), ("lang_out", "Z"), ("lang_out_0", "Z")],
+     ["idx_out", "lang_out_0"], [], "list Z * Z * Z"),
+    ("lang.c", "polyseed_phrase_decode_explicit",
+     [("phrase", "list (list Z)"), ("lang", "Z"), ("idx_out", "list Z")], ["idx_out"], [], "list Z * Z"),
     ("storage.c", "polyseed_data_store",
      [("data_birthday", "Z"), ("data_features", "Z"), ("data_secret", "list Z"), ("data_checksum", "Z"), ("storage", "list Z")],
      ["storage"], [], "list Z"),
